@@ -452,14 +452,22 @@ impl DiskCache {
         for path in overlapping_item_paths {
             #[cfg(xet_verif)]
             utils::verif::gate("cc_del", "");
+            #[cfg(xet_verif)]
+            utils::verif::crash_point("cc_before_del", &path.to_string_lossy());
             remove_file(&path)?;
+            #[cfg(xet_verif)]
+            utils::verif::crash_point("cc_after_del", &path.to_string_lossy());
             #[cfg(xet_verif)]
             utils::verif::emit("CcDel", || format!("\"path\":\"{}\",\"why\":\"subsumed\"", path.display()));
         }
         for path in evicted_paths {
             #[cfg(xet_verif)]
             utils::verif::gate("cc_del", "");
+            #[cfg(xet_verif)]
+            utils::verif::crash_point("cc_before_del", &path.to_string_lossy());
             remove_file(&path)?;
+            #[cfg(xet_verif)]
+            utils::verif::crash_point("cc_after_del", &path.to_string_lossy());
             #[cfg(xet_verif)]
             utils::verif::emit("CcDel", || format!("\"path\":\"{}\",\"why\":\"evicted\"", path.display()));
             // check and try to remove key path if all items evicted for key
